@@ -3,6 +3,7 @@ package main
 // C17 — Plugin.FullSource vs the Lean model; documented expansions and idempotence as direct oracles.
 
 import (
+	"encoding/json"
 	"strings"
 
 	pipeline "github.com/buildkite/go-pipeline"
@@ -91,8 +92,31 @@ func runC17(c *ctx) error {
 		if !ok {
 			return
 		}
+		// the marshalled plugin is keyed by exactly this canonical form (both encoders)
+		if i := c.res.OracleChecks; i%7 == 0 {
+			pl := &pipeline.Plugin{Source: s}
+			if jb, err := json.Marshal(pl); err == nil {
+				var back map[string]any
+				if json.Unmarshal(jb, &back) == nil && len(back) == 1 {
+					for k := range back {
+						if k != got {
+							c.res.Fail(core.OracleFailure{What: "the marshalled plugin is not keyed by FullSource()", Input: s, Got: k, Want: got})
+						}
+					}
+				}
+			}
+			if y, err := pl.MarshalYAML(); err == nil {
+				if m, ok := y.(map[string]any); ok && len(m) == 1 {
+					for k := range m {
+						if k != got {
+							c.res.Fail(core.OracleFailure{What: "MarshalYAML does not key the plugin by FullSource()", Input: s, Got: k, Want: got})
+						}
+					}
+				}
+			}
+		}
+		c.res.OracleChecks++
 		if inDom(s) {
-			c.res.OracleChecks++
 			again, _ := fullSource(got)
 			if again != got {
 				c.res.Fail(core.OracleFailure{What: "canonicalisation is not idempotent", Input: s, Got: again, Want: got})
